@@ -266,7 +266,18 @@ func (r *rec) fileTest(lines [][]byte, epochs []int, digest bool, subs int) {
 			if err != nil {
 				panic(err)
 			}
-			for k := r.rng.Intn(e0 - s0 + 1); k > 0; k-- {
+			k0 := r.rng.Intn(e0 - s0 + 1)
+			if digest {
+				// the big-line file: the whole file as one window, read almost to its end (well past the first fill of
+				// the read buffer) before the rewind
+				s0, e0 = 0, n
+				c.Close()
+				if c, err = ch.Open(ep, s0, e0); err != nil {
+					panic(err)
+				}
+				k0 = n - r.rng.Intn(min(n, 300))
+			}
+			for k := k0; k > 0; k-- {
 				if _, err := c.Read(); err != nil {
 					break
 				}
@@ -379,7 +390,7 @@ func (r *rec) epochMode(tier string) {
 		r.plan(100000*(1+r.rng.Intn(12)) + r.rng.Intn(40))
 	}
 	// big lines so that the 32 MiB read buffer has to be refilled (digest mode: length + fnv instead of text)
-	r.fileTest(r.mkLines(9500, 50, 1, 3900), []int{3}, true, 2)
+	r.fileTest(r.mkLines(18500, 50, 1, 3900), []int{3}, true, 2) // ~36 MB: more than the 32 MiB read buffer
 }
 
 func (r *rec) permMode(tier string, shard, nshards int) {
@@ -616,7 +627,7 @@ func main() {
 	defer func() {
 		if x := recover(); x != nil {
 			st := string(debug.Stack())
-			eng := !strings.Contains(st, "rec-tuner/main.go") || strings.Index(st, "/epd/") < strings.Index(st, "rec-tuner/main.go") && strings.Index(st, "/epd/") > 0
+			eng := panicInEngine(st)
 			r.emit(&Ev{Ev: "panic", Msg: fmt.Sprint(x), Engine: &eng})
 			fmt.Fprintln(os.Stderr, "panic recorded:", x, st)
 		}
@@ -634,4 +645,24 @@ func main() {
 		r.evalMode(*fens, *n)
 	}
 	fmt.Fprintln(os.Stderr, "events", r.n)
+}
+
+// panicInEngine: is the innermost non-runtime frame of the panic inside the tuner's packages (and not in this recorder)?
+func panicInEngine(st string) bool {
+	seenPanic := false
+	for _, l := range strings.Split(st, "\n") {
+		l = strings.TrimSpace(l)
+		if strings.HasPrefix(l, "panic(") {
+			seenPanic = true
+			continue
+		}
+		if !seenPanic || !strings.HasPrefix(l, "/") {
+			continue
+		}
+		if strings.Contains(l, "/runtime/") || strings.Contains(l, "/src/") && strings.Contains(l, "go1.") {
+			continue
+		}
+		return !strings.Contains(l, "/verifcmd/")
+	}
+	return false
 }
